@@ -2,7 +2,7 @@
    are accepted by construction) on which the hypotheses of the pinned theorems hold together. *)
 From Coq Require Import List NArith Bool Arith Lia Permutation ZifyBool ZifyNat ZifyN.
 From V Require Import gen.Consts model.Fetcher proofs.Fetcher proofs.FetcherDet proofs.FetcherSched
-  proofs.FetcherProps proofs.FetcherProps2 proofs.FetcherLive.
+  proofs.FetcherProps proofs.FetcherProps2 proofs.FetcherLive proofs.FetcherBridge.
 Import ListNotations.
 Open Scope N_scope.
 
@@ -138,4 +138,24 @@ Proof.
   split; [exact I|]. exists (init, [], post). split; [reflexivity|]. split.
   - vm_compute. lia.
   - cbn [r_post snd]. unfold inflight. apply og_mem_In. exact Hm.
+Qed.
+
+(* the C09 bridge: its premises hold on a non-trivial idle state, and the correction is real -- an
+   advertised unheld record that is already in flight (from holder 8) stays queued for holder 7 *)
+Example ex_bridge_premises :
+  let s := last_state init (run_det init [AddKeys 8 [xk 3] []]) in
+  let inc := [xk 1; xk 2; xk 3; xk 4] in let held := [(K 4 4, Chunk)] in
+  reachable s /\ tbf s = [] /\ range s = None /\ farthest s = None /\ NoDup inc /\
+  (forall e, In e (ongoing s) -> ~ expired s e) /\
+  (length (FetcherBridge.kept s held) + length (FetcherBridge.fetch_set s held inc) <= MAXn)%nat /\
+  FetcherBridge.fetch_set s held inc = [xk 1; xk 2] /\
+  ret (snd (step_det s (AddKeys 7 inc held))) = [(7, K 1 1); (7, K 2 2)] /\
+  FetcherBridge.lingering s 7 held inc = [((xk 3, 7), PENDING_T)] /\
+  tbf (fst (step_det s (AddKeys 7 inc held))) = [((xk 3, 7), PENDING_T)].
+Proof.
+  cbv zeta. split; [apply run_det_reachable|]. split; [vm_compute; reflexivity|].
+  split; [reflexivity|]. split; [reflexivity|].
+  split. { apply (nodup_by_NoDup kt_eqb kt_eqb_eq). vm_compute. reflexivity. }
+  split. { intros e He. vm_compute in He. destruct He as [<-|[]]. unfold expired. vm_compute. discriminate. }
+  split; [vm_compute; lia|]. repeat split; vm_compute; reflexivity.
 Qed.
